@@ -60,7 +60,7 @@ def correspondence(ctx):
                 "last permitted attempt succeeds; recipe family for SuccessProbability(). Non-trivial = distinct (recipe, budget, tape) that ends in an "
                 "error, exhausts or nearly exhausts the attempts, or has overlapping required sets.")
     rng = ctx.rng
-    recs = list(SPECIAL) + list(AT_THE_LIMIT)
+    recs = list(SPECIAL) + list(AT_THE_LIMIT) + chargen.machine_boundary_recipes()
     n = 300 if ctx.tier == "quick" else 4000
     recs += [chargen.gen_recipe(rng) for _ in range(n)]
     ctx.gen_results = chargen.run_chargen_family(ctx, 0, recipes=recs)
